@@ -55,6 +55,8 @@ pub struct Ctx {
     /// answers of the canary calls on fresh threads (purity oracle, see canary.rs)
     pub canary_base: Vec<String>,
     pub canary_failed: bool,
+    /// long-input cases on dense multi-byte text (props_long.rs)
+    pub dense: bool,
 }
 
 pub fn hash_of<T: Hash>(t: &T) -> u64 {
@@ -90,6 +92,7 @@ impl Ctx {
             recent: std::collections::VecDeque::new(),
             canary_base: crate::canary::baseline(),
             canary_failed: false,
+            dense: false,
         }
     }
 
